@@ -165,6 +165,11 @@ pub trait Prop: Sync {
     fn describe(&self, _tape: &mut Tape, _ctx: &mut Ctx) -> Value {
         Value::Null
     }
+    /// Exhaustive small-scope enumeration, split over the worker processes: worker `shard` of
+    /// `nshards` enumerates its share before the random cases.  Returns the failures found.
+    fn exhaustive_phase(&self, _shard: usize, _nshards: usize, _ctx: &mut Ctx) -> Vec<Failure> {
+        Vec::new()
+    }
     /// property-specific phases run by the supervisor after the workers (real binary, pipes,
     /// enumerations...).  Returns failures and contributes to evidence via `sup`.
     fn supervisor_phase(&self, _sup: &mut Sup) {}
@@ -447,6 +452,32 @@ pub fn worker_main(prop: &dyn Prop, a: &WorkerArgs) -> i32 {
     let mut out = fs::OpenOptions::new().create(true).append(true).open(&a.out).expect("open out");
     let mut inflight = fs::OpenOptions::new().create(true).write(true).truncate(false).open(&a.inflight).expect("open inflight");
 
+    if a.first_batch == 0 {
+        // exhaustive small-scope enumeration (this worker's share)
+        let mut c = Ctx::new(a.tier, a.seed, identity.clone(), scratch.clone(), a.shard);
+        write_inflight(&mut inflight, usize::MAX >> 1, &[]);
+        let fails = match guarded(|| prop.exhaustive_phase(a.shard, a.nshards, &mut c)) {
+            Ok(f) => f,
+            Err(p) => vec![p.failure()],
+        };
+        let failures: Vec<Value> = fails
+            .iter()
+            .filter(|f| match_known(&known, &f.signature, &f.traits).is_none())
+            .map(|f| json!({"signature": f.signature, "message": f.message, "detail": f.detail, "traits": f.traits, "tape": [], "identity": identity, "shard": a.shard, "batch": -1, "exhaustive": true}))
+            .collect();
+        let kh: Vec<Value> = fails
+            .iter()
+            .filter(|f| match_known(&known, &f.signature, &f.traits).is_some())
+            .map(|f| json!({"signature": f.signature, "traits": f.traits, "count": 1, "tape": []}))
+            .collect();
+        let line = json!({
+            "batch": -1, "shard": a.shard, "evaluations": c.notes.get("exhaustive-evaluations").copied().unwrap_or(0),
+            "skipped": {}, "nontrivial": c.nontrivial.iter().map(|x| format!("{:016x}", x)).collect::<Vec<_>>(),
+            "classes": c.classes, "samples": c.samples, "xchecks": [], "failures": failures, "known": kh, "notes": c.notes,
+        });
+        writeln!(out, "{}", line).unwrap();
+        out.flush().unwrap();
+    }
     for b in a.first_batch..nbatches {
         let ncases = BATCH.min(per_shard - b * BATCH);
         let ctx = RefCell::new(Ctx::new(a.tier, a.seed, identity.clone(), scratch.clone(), a.shard));
